@@ -143,7 +143,7 @@ def build(tier, seed):
         g = core + rnd.sample(rest, 24)
     queries = []
     for t, e, lk, ak, fmt in g:
-        maxlen = 3 if tier == "quick" else 4
+        maxlen = 3 if tier == "quick" else 5
         if fmt == "fixed":
             maxlen = 4
         mk, rp = make(t, e, lk, ak, fmt, maxlen)
